@@ -41,6 +41,8 @@ struct Case {
 enum Exit {
     Code(i32),
     NonZero,
+    /// the configured code iff the run reported an error (an ERROR line on stderr), otherwise 0 - whatever the mode
+    IffReported(i32),
 }
 
 #[derive(Clone, Debug, PartialEq)]
@@ -70,7 +72,14 @@ fn run_case(c: &Case) -> Option<(String, String)> {
     if r.crashed() {
         return Some(("crash".into(), format!("signal {:?} timeout {}: {}", r.signal, r.timed_out, r.stderr_str().lines().find(|l| l.contains("panicked")).unwrap_or(""))));
     }
+    // "reported": an ERROR line on stderr, or (modes that display no errors, e.g. views) the statistics file
+    let stats_reported = std::fs::read_to_string(&statp).ok().and_then(|t| serde_json::from_str::<Value>(&t).ok()).map_or(false, |st| {
+        st["error_stats"]["total_errors"].as_u64().unwrap_or(0) > 0 || !st["error_stats"]["fatal_error"].is_null()
+    });
+    let reported = stats_reported || r.stderr_str().lines().any(|l| strip_ansi(l).trim_start().starts_with("ERROR"));
     match (&c.exit, r.status) {
+        (Exit::IffReported(n), Some(s)) if s == if reported { *n } else { 0 } => {}
+        (Exit::IffReported(n), got) => return Some(("exit-status:errors-reported-vs-exit".into(), format!("exit status {:?} although an error was{} reported and -E {n} is set", got, if reported { "" } else { " not" }))),
         (Exit::Code(n), Some(s)) if *n == s => {}
         (Exit::NonZero, Some(s)) if s != 0 => {}
         (want, got) => return Some(("exit-status".into(), format!("exit status {:?}, contract says {:?}", got, want))),
@@ -341,6 +350,28 @@ pub fn run(tier: Tier) -> i32 {
             }
         }
     }
+    // ---- modes that print no report (views, data to stdout): the exit status follows the reported errors all the same
+    {
+        let (walked, _) = stream::walk(&clean_bytes);
+        let mut fatal = clean_bytes.clone();
+        fatal[walked[2].offset as usize + 8] = 16;
+        fatal[walked[2].offset as usize + 9] = 0;
+        let truncated = clean_bytes[..clean_bytes.len() - 9].to_vec();
+        let mut sanity = clean.packets.clone();
+        sanity[1].1.packet.rdh.rdh3_reserved = 0x0101;
+        let sanity: Vec<u8> = sanity.iter().flat_map(|(_, p)| p.packet.bytes()).collect();
+        let link = walked[0].rdh.link_id.to_string();
+        for (label, b) in [("fatal framing error", &fatal), ("truncated last payload", &truncated), ("one RDH sanity fault", &sanity), ("clean", &clean_bytes)] {
+            for mode in [s(&["view", "rdh"]), s(&["view", "its-readout-frames"]), s(&["view", "its-readout-frames-data"]), s(&["-f", &link, "-o", "stdout"]), s(&["-f", &link, "-o", "out.raw"]), s(&["check", "sanity"]), s(&["check", "all", "its"])] {
+                for n in [7, 42] {
+                    let mut a = mode.clone();
+                    a.extend(s(&["-E", &n.to_string()]));
+                    a.extend(stats_args.clone());
+                    cases.push(Case { label: format!("no-report modes: {label}"), input: Input::Bytes(b.clone()), args: a, exit: Exit::IffReported(n), total: None, shown: None, must_not_exist: vec![] });
+                }
+            }
+        }
+    }
     // ---- unreadable / unrecognisable input
     let text: Vec<u8> = b"hello world, this is not ALICE data, but it is longer than sixty-four bytes for sure......".to_vec();
     for (label, input) in [
@@ -410,7 +441,7 @@ pub fn run(tier: Tier) -> i32 {
     rep.cov("code_pairs", json!(pairs));
     rep.cov("distinct_nontrivial", json!(cases.iter().filter(|c| c.exit != Exit::Code(0)).count()));
     rep.cov("exhaustive", json!(true));
-    rep.cov("rule", json!("contract table over: clean x 5 -E values x 3 modes; 1/2/21 errors x 5 -E values x 7 display options; a stream with mixed codes (E10, E11, E40, E41, E44, E444, E445, ...) x code lists incl. prefixes; a fatal framing error at every packet index x 3 -E values; 5 unreadable / unrecognisable inputs x 3 modes; 10 invalid option combinations (must not write st.json / out.raw); all ordered pairs of 43 codes through the display filter; thorough: every -E value 1..=255 x {clean, one error, one muted error, fatal framing error} and -E 0 / 256 / -1 / 1000 rejected. non-trivial = the contract demands a non-zero exit"));
+    rep.cov("rule", json!("contract table over: clean x 5 -E values x 3 modes; 1/2/21 errors x 5 -E values x 7 display options; a stream with mixed codes (E10, E11, E40, E41, E44, E444, E445, ...) x code lists incl. prefixes; a fatal framing error at every packet index x 3 -E values; {fatal framing error, truncated last payload, RDH sanity fault, clean} x 7 modes incl. the three views and data to stdout x 2 -E values with the oracle: exit = N iff an error was reported (ERROR line on stderr or errors / fatal error in the statistics file); 5 unreadable / unrecognisable inputs x 3 modes; 10 invalid option combinations (must not write st.json / out.raw); all ordered pairs of 43 codes through the display filter; thorough: every -E value 1..=255 x {clean, one error, one muted error, fatal framing error} and -E 0 / 256 / -1 / 1000 rejected. non-trivial = the contract demands a non-zero exit"));
     rep.sample(json!({"case": cases[cases.len() / 2].label, "args": cases[cases.len() / 2].args}));
     rep.assume("with an error cap the run stops early: only 'at most N shown' and the exit status are judged, not the totals");
     rep.finish()
